@@ -12,6 +12,9 @@ The simple server around the processor (C14): what lies between the socket and `
       FSimpleServer.acceptLoop: one goroutine per accepted connection, each running the
       per-connection loop (`processConn`, one request per step); a schedule is the list of
       connection indices in the order in which their goroutines take a step.
+  FV.Proc.ephRequest / ephProtocol / ephStep / ephRun
+      the ephemeral-properties map handlers reach through their FContext: per protocol, i.e. shared by
+      the requests of one connection, separate between connections / HTTP requests / NATS messages.
 Core Lean only.
 -/
 import FV.Basic
@@ -79,5 +82,51 @@ def srvRun (pm : ProcMap) (s : List ConnSt) (sched : List Nat) : List ConnSt := 
 def iter (f : α → α) : Nat → α → α
   | 0, a => a
   | n + 1, a => iter f n (f a)
+
+/-! ### Request-scoped state a handler reaches through its FContext
+
+`ReadRequestHeader` builds a fresh FContext per request (own request and response header maps)
+and makes the ephemeral-properties map OF THE INPUT FProtocol the context's ephemeral
+properties. `FProtocolFactory.GetProtocol` gives every protocol its own empty map. Hence:
+one map per HTTP request and per NATS message (one protocol each), one map per simple-server
+connection — shared by the requests read one after the other from that connection — and
+nothing shared between connections. A handler script here: look the key up, set it to the
+request's own value, look it up again, count the properties. -/
+
+structure EphScript where
+  key : Bytes
+  val : Bytes
+  deriving DecidableEq, Repr
+
+structure EphObs where
+  entry : Option Bytes
+  back : Option Bytes
+  count : Nat
+  deriving DecidableEq, Repr
+
+def ephRequest (st : Hdrs) (s : EphScript) : EphObs × Hdrs :=
+  let st' := st.set s.key s.val
+  (⟨st.get? s.key, st'.get? s.key, st'.length⟩, st')
+
+def ephProtocol (st : Hdrs) : List EphScript → List EphObs × Hdrs
+  | [] => ([], st)
+  | s :: t =>
+    let r := ephRequest st s
+    let r' := ephProtocol r.2 t
+    (r.1 :: r'.1, r'.2)
+
+structure EphConn where
+  todo : List EphScript
+  seen : List EphObs
+  store : Hdrs
+
+def EphConn.init (c : List EphScript) : EphConn := ⟨c, [], []⟩
+
+def ephStep (c : EphConn) : EphConn :=
+  match c.todo with
+  | [] => c
+  | s :: t => ⟨t, c.seen ++ [(ephRequest c.store s).1], (ephRequest c.store s).2⟩
+
+def ephRun (s : List EphConn) (sched : List Nat) : List EphConn := sched.foldl (fun s i => s.modify i ephStep) s
 
 end FV.Proc
